@@ -37,28 +37,31 @@ IDENT = ("id", "kind", "ts", "side", "px", "par", "thr", "amt", "auto")
 def cases_module(name, cases):
     body = ",\n  ".join("[o |-> %s, q |-> %d, r |-> %s]" % (tla_ord(c["o"]), c["q"], tla_res(c["r"])) for c in cases)
     return ("---- MODULE %s ----\nEXTENDS ApaMatchMC\n\\* @type: Seq({o: $ord, q: Int, r: $res});\nCases == <<\n  %s\n>>\n"
-            "CasesOk == \\A i \\in DOMAIN Cases : AMatch(Cases[i].o, Cases[i].q) = Cases[i].r\n====\n" % (name, body))
+            "CasesOk == \\A i \\in DOMAIN Cases : AMatch(Cases[i].o, Cases[i].q) = Cases[i].r\n"
+            "CasesRule == \\A i \\in DOMAIN Cases : ARule(Cases[i].o, Cases[i].q, Cases[i].r)\n====\n" % (name, body))
 
 
-def check_cases(cases, work, tag):
+def check_cases(cases, work, tag, inv="CasesOk"):
+    """CasesOk: the recorded results are the model's (AMatch) - conformance; since Apalache proves ARule(AMatch)
+    for all inputs, conformance implies the rule.  CasesRule: the recorded results satisfy the documented rule."""
     name = "GenApaCases_%d_%s" % (os.getpid(), tag)
     path = os.path.join(SPEC, name + ".tla")
     open(path, "w").write(cases_module(name, cases))
     try:
-        ok, wall, out = apalache(path, "CasesOk", work)
+        ok, wall, out = apalache(path, inv, work)
     finally:
         os.remove(path)
     return ok, wall
 
 
-def locate(cases, work):
+def locate(cases, work, inv="CasesOk"):
     """bisect to one failing case"""
     lo, hi = 0, len(cases)
     n = 0
     while hi - lo > 1:
         mid = (lo + hi) // 2
         n += 1
-        ok, _ = check_cases(cases[lo:mid], work, "b%d" % n)
+        ok, _ = check_cases(cases[lo:mid], work, "b%d" % n, inv)
         if not ok:
             hi = mid
         else:
@@ -104,9 +107,14 @@ def check_c05(prop, tier):
                     f.write(line)
         s = tv(small, "TraceGrid", "TraceGrid", work)
         res.add(traces_validated_against_impl=1, grid_cases=s["ma"], helper_cases=s["wr"] + s["ri"], grid_covered=s["covered"])
-        if s["panics"] or s["badma"] or s["badwr"] or s["badri"]:
+        drift = None
+        if s["panics"] or s["badma"]:
             bad = read_trace_lines(small)[s["firstbad"] - 1]
-            res.violation("match_against / helper disagrees with the specification on grid case (line %d of %d bad)" % (s["firstbad"], s["badma"] + s["badwr"] + s["badri"] + s["panics"]), {"driver": "grid", "case": bad})
+            res.violation("match_against breaks the documented rule on grid case (line %d; %d cases)" % (s["firstbad"], s["badma"] + s["panics"]), {"driver": "grid", "case": bad})
+        elif s["driftma"] or s["badwr"] or s["badri"]:
+            dl = read_trace_lines(small)[s["firstdrift"] - 1]
+            drift = "%d grid results differ from the transcription of the pinned code although the documented rule holds (%d helper cases differ), first: %s" % (
+                s["driftma"], s["badwr"] + s["badri"], json.dumps(dl)[:300])
         if not s["covered"] or s["ma"] != r["distinct"]:
             raise ToolError("the recorded grid is not the model-checked grid (%d vs %d)" % (s["ma"], r["distinct"]))
         # 64-bit cases: identity fields by direct comparison, quantities by Apalache against ApaMatch
@@ -122,10 +130,16 @@ def check_c05(prop, tier):
         nchecked = len(bigs)
         for part, (ok, w) in zip(parts, outcomes):
             if not ok:
-                bad = locate(part, work)
-                res.violation("match_against disagrees with the specification on a 64-bit input", {"driver": "grid", "case": bad})
-                break
+                # not the model's result: does it break the documented rule, or only differ from the pinned code?
+                okr, _ = check_cases(part, work, "rule", "CasesRule")
+                if not okr:
+                    bad = locate(part, work, "CasesRule")
+                    res.violation("match_against breaks the documented rule on a 64-bit input", {"driver": "grid", "case": bad})
+                    break
+                drift = drift or "64-bit results differ from the transcription of the pinned code although the documented rule holds: %s" % json.dumps(locate(part, work))[:300]
         res.add(boundary_cases_validated_by_apalache=nchecked)
+        if drift:
+            res.downgrade(drift, s["ma"] + nchecked, s["ma"] + nchecked, "every grid case and every recorded 64-bit case of the real match_against judged by the documented rule (RuleC05 / ARule)")
         res.sample({"grid_case": json.loads(open(small).readline())})
         if bigs:
             res.sample({"boundary_case": bigs[0]})
